@@ -19,13 +19,53 @@ type printer struct {
 	pkg int
 }
 
-func prelude(p int, useB bool) string {
-	var b strings.Builder
-	fmt.Fprintf(&b, "package %s\n\nimport (\n\t\"errors\"\n", pkgName(p))
-	if p == pkgA && useB {
-		fmt.Fprintf(&b, "\t%q\n", pkgPath(pkgB))
+// usesErrors: some body of package pk calls errors.New (importing "errors" makes packages.Load parse and
+// type-check package runtime from source, ~1 s per program: only programs that need it pay for it)
+func (p *Prog) usesErrors(pk int) bool {
+	found := false
+	var walkE func(e *Expr)
+	var walkS func(ss []*Stmt)
+	walkE = func(e *Expr) {
+		if e == nil {
+			return
+		}
+		if e.K == "call" && e.Fun == "errors.New" {
+			found = true
+		}
+		for _, a := range e.Args {
+			walkE(a)
+		}
 	}
-	b.WriteString(")\n\nvar _ = errors.New\n")
+	walkS = func(ss []*Stmt) {
+		for _, s := range ss {
+			for _, e := range s.Rhs {
+				walkE(e)
+			}
+			for _, b := range s.Blocks {
+				walkS(b)
+			}
+		}
+	}
+	for _, f := range p.Funcs {
+		if f.Pkg == pk {
+			walkS(f.Body)
+		}
+	}
+	return found
+}
+
+func prelude(p int, useB bool, useErrors bool) string {
+	var b strings.Builder
+	fmt.Fprintf(&b, "package %s\n\n", pkgName(p))
+	if useErrors {
+		b.WriteString("import \"errors\"\n\n")
+	}
+	if p == pkgA && useB {
+		fmt.Fprintf(&b, "import %q\n\n", pkgPath(pkgB))
+	}
+	if useErrors {
+		b.WriteString("var _ = errors.New\n")
+	}
 	if p == pkgA && useB {
 		b.WriteString("var _ b.T\n")
 	}
@@ -68,7 +108,7 @@ func (p *Prog) files() map[string]string {
 			continue
 		}
 		pr := &printer{p: p, pkg: pk}
-		pr.buf.WriteString(prelude(pk, p.UseB))
+		pr.buf.WriteString(prelude(pk, p.UseB, p.usesErrors(pk)))
 		for _, f := range p.Funcs {
 			if f.Pkg != pk || f.IsLit || f.Iface || f.Prelude {
 				continue
